@@ -221,5 +221,6 @@ def run(tier):
     common.write_evidence("C16", tier, "model_checking", cov, ["std::collections::HashMap iterates in an arbitrary order (its documented contract); BTreeMap/BTreeSet/Vec iterate in key / insertion order",
                           "error message texts are opaque in the MIR model (format!); errors are compared by variant, type-error kind, file and span, plus the name picked by find_similar_name; full texts are compared natively",
                           "levenshtein (external crate) is modelled by its contract (edit distance)", "cross-process repetition itself is covered only by the native runs (%d per template)" % reps], time.time() - t0, len(fnd.violations))
+    if not allsites and tot["paths"]: print("INCONCLUSIVE property=C16 no HashMap iteration was met on any template (the order-independence claim would be vacuous)"); rc = rc or 2
     print("C16: %d templates, %d iteration orders explored, %d native runs, %d hash-iteration sites, wall %.1fs" % (len(jobs), tot["paths"], nat, len(allsites), time.time() - t0))
     return rc
